@@ -113,7 +113,7 @@ prop(
 
 prop(
     'C03',
-    ['A3', 'A4', 'T1', 'T2', 'N2', 'M1', 'M3', 'M6'],
+    ['A3', 'A3r', 'A4', 'T1', 'T2', 'N2', 'M1', 'M3', 'M6'],
     explanation=(
         'A3: each of the 13 expression-typed child fields is narrowed on construction to exactly its parameter type (cast '
         'converter or forcing validator; operand1 vs parameter1, operand2 vs parameter2), both sides of =/!= are unified and '
@@ -127,19 +127,22 @@ prop(
 
 prop(
     'C04',
-    ['T1n', 'T2n', 'A3n', 'N1', 'A8', 'L2', 'L3', 'G3', 'D1'],
+    ['T1n', 'T2n', 'A3n', 'N1', 'A8', 'F1', 'S5', 'M1', 'L2', 'L3', 'G3', 'D1'],
     explanation=(
         'Necessary conditions only: no operator/function parameter type or child-field constraint is narrower than the '
         'reference (T1n/T2n/A3n), no overload is missing, compatibility decisions are intersections (L2/L3: cast/can_be), '
         'every grammatical operator has a table row (G3), alias availability along the binding chain is not lost (D1), no '
-        'equality/subset test between type sets dominates a rejection (N1), constants are read as (token, value)[0] (A8). '
+        'equality/subset test between type sets dominates a rejection (N1), constants are read as (token, value)[0] (A8), '
+        'parser callbacks leave the type set of new nodes to the constructors (F1), the schema walk checks index expressions '
+        'against the current message and every occurrence (S5), and type checking never narrows stored types in place (M1: a '
+        'second check against another valid schema would fail). '
         'Not decided: completeness of inference for every term; schema side is C17.'
     ),
 )
 
 prop(
     'C05',
-    ['T1w', 'T2w', 'A3p', 'A3u', 'N2', 'N3', 'F1', 'M6'],
+    ['T1w', 'T2w', 'A3p', 'A3u', 'A3r', 'N2', 'N3', 'F1', 'M6'],
     explanation=(
         'Necessary conditions only: no operator/function parameter type is wider than the reference and no overload was '
         'added (T1w/T2w); every expression-typed child slot has a constraint that is not wider than its parameter type '
@@ -152,14 +155,15 @@ prop(
 
 prop(
     'C07',
-    ['X4', 'X3a', 'X1', 'X6', 'S6', 'G6', 'G7', 'G3', 'X5'],
+    ['X4', 'X3a', 'X1', 'X6', 'A3r', 'S6', 'G6', 'G7', 'G3', 'X5'],
     explanation=(
         'X4: the lark call sits in a try whose handlers cover UnexpectedToken/UnexpectedCharacters, each handler raises '
         'HplSyntaxError built only from attributes every handled exception class defines (read from lark\'s own source); '
         'no other try in parser.py except the int()/float() fallback. X3a: over a name-based call graph from the five '
         'parse_* functions and all transformer callbacks (constructors expand to converters, validators, post-init), every '
         'reachable raise site raises one of the four documented classes. X1: no unbound local. G6/G7/G3: no arity, index, '
-        'KeyError or unknown-operator failure for grammatical input. S6: no abstract stub reachable. X6: no state on the '
+        'KeyError or unknown-operator failure for grammatical input. A3r: a non-boolean predicate root is rejected with TypeError '
+        'before the literal fast path and its assertions. S6: no abstract stub reachable. X6: no state on the '
         'transformer/parser objects, no module-level mutable state written or handed out. X5: assert census (informational). '
         'Not decided: termination/recursion depth, implicit AttributeError on dynamically typed receivers.'
     ),
@@ -208,7 +212,7 @@ prop(
 
 prop(
     'C14',
-    ['X1', 'X2', 'X3b', 'X3c', 'S3', 'X5r'],
+    ['X1', 'X2', 'X3b', 'X3c', 'S3', 'R2', 'T2', 'X5r'],
     explanation=(
         'X1 definite assignment over all 614 functions; X2 call.arguments[k] vs the smallest overload of the function the '
         'branch dispatches on; X3b explicit raises of rewrite.py are the documented ones; X5r assert census of everything '
@@ -223,7 +227,7 @@ prop(
 
 prop(
     'C17',
-    ['S5', 'F3', 'T5', 'A5', 'A8', 'A9', 'X8'],
+    ['S5', 'F3', 'T5', 'A5', 'A8', 'A9', 'X8', 'M1'],
     explanation=(
         'S5 the generic walk pushes all children of every non-accessor node and accessors visit object chain and index; F3 '
         'provenance of the alias -> type mapping; T5 (u)intN bounds computed from the bit width; A5 token validators '
